@@ -1219,3 +1219,160 @@ func fieldAddrOfLoad(v ssa.Value) *ssa.FieldAddr {
 	}
 	return nil
 }
+
+// reachOnSomePath: is target reachable from fn's entry on a path that is consistent with assume and
+// with itself — a condition that assume leaves open is decided once per path, and a structurally
+// identical condition met again (the same comparison of the same values: `timeChar == EventTime`
+// written twice) takes the same branch; phis are resolved by the edge the path came in on. Each block
+// is entered at most twice per path; on budget exhaustion the answer is true (reachable).
+func reachOnSomePath(fn *ssa.Function, target ssa.Instruction, assume func(v ssa.Value) Tri) bool {
+	type pathState struct {
+		decided map[string]Tri
+		phi     map[*ssa.Phi]ssa.Value
+		visits  map[*ssa.BasicBlock]int
+	}
+	key := func(v ssa.Value) string {
+		switch x := v.(type) {
+		case *ssa.BinOp:
+			opnd := func(o ssa.Value) string {
+				if k, ok := o.(*ssa.Const); ok {
+					return "k:" + k.String()
+				}
+				return fmt.Sprintf("%p", o)
+			}
+			return fmt.Sprintf("%s|%s|%s", x.Op, opnd(x.X), opnd(x.Y))
+		case *ssa.Phi, *ssa.Parameter, *ssa.Extract:
+			return fmt.Sprintf("v|%p", v)
+		}
+		return ""
+	}
+	budget := 40000
+	found := false
+	var eval func(v ssa.Value, ps *pathState, d int) Tri
+	eval = func(v ssa.Value, ps *pathState, d int) Tri {
+		if d > 6 {
+			return U
+		}
+		switch x := v.(type) {
+		case *ssa.UnOp:
+			if x.Op == token.NOT {
+				return eval(x.X, ps, d+1).not()
+			}
+		case *ssa.Const:
+			if x.Value != nil && x.Value.Kind() == constant.Bool {
+				return tri(constant.BoolVal(x.Value))
+			}
+		case *ssa.Phi:
+			if r := assume(v); r != U {
+				return r
+			}
+			if e, ok := ps.phi[x]; ok {
+				return eval(e, ps, d+1)
+			}
+		}
+		if r := assume(v); r != U {
+			return r
+		}
+		if k := key(v); k != "" {
+			if r, ok := ps.decided[k]; ok {
+				return r
+			}
+		}
+		return U
+	}
+	clone := func(ps *pathState) *pathState {
+		q := &pathState{decided: map[string]Tri{}, phi: map[*ssa.Phi]ssa.Value{}, visits: map[*ssa.BasicBlock]int{}}
+		for k, v := range ps.decided {
+			q.decided[k] = v
+		}
+		for k, v := range ps.phi {
+			q.phi[k] = v
+		}
+		for k, v := range ps.visits {
+			q.visits[k] = v
+		}
+		return q
+	}
+	var walk func(b, pred *ssa.BasicBlock, ps *pathState)
+	walk = func(b, pred *ssa.BasicBlock, ps *pathState) {
+		for {
+			if found {
+				return
+			}
+			budget--
+			if budget < 0 {
+				found = true
+				return
+			}
+			if ps.visits[b] >= 2 {
+				return
+			}
+			ps.visits[b]++
+			if pred != nil {
+				for i, p := range b.Preds {
+					if p != pred {
+						continue
+					}
+					for _, in := range b.Instrs {
+						phi, ok := in.(*ssa.Phi)
+						if !ok {
+							break
+						}
+						e := phi.Edges[i]
+						if pe, ok := e.(*ssa.Phi); ok {
+							if pv, ok := ps.phi[pe]; ok && pe.Block() != b {
+								e = pv
+							}
+						}
+						ps.phi[phi] = e
+					}
+					break
+				}
+			}
+			if b == target.Block() {
+				found = true
+				return
+			}
+			iff, ok := b.Instrs[len(b.Instrs)-1].(*ssa.If)
+			if !ok {
+				if len(b.Succs) == 0 {
+					return
+				}
+				pred, b = b, b.Succs[0]
+				continue
+			}
+			switch eval(iff.Cond, ps, 0) {
+			case T:
+				pred, b = b, b.Succs[0]
+			case F:
+				pred, b = b, b.Succs[1]
+			default:
+				c := iff.Cond
+				sense := true
+				for {
+					u, ok := c.(*ssa.UnOp)
+					if !ok || u.Op != token.NOT {
+						break
+					}
+					c, sense = u.X, !sense
+				}
+				// through a phi to the value it took on this path
+				if ph, ok := c.(*ssa.Phi); ok {
+					if e, ok := ps.phi[ph]; ok {
+						c = e
+					}
+				}
+				k := key(c)
+				q := clone(ps)
+				if k != "" {
+					q.decided[k] = tri(sense)
+					ps.decided[k] = tri(!sense)
+				}
+				walk(b.Succs[0], b, q)
+				pred, b = b, b.Succs[1]
+			}
+		}
+	}
+	walk(fn.Blocks[0], nil, &pathState{decided: map[string]Tri{}, phi: map[*ssa.Phi]ssa.Value{}, visits: map[*ssa.BasicBlock]int{}})
+	return found
+}
